@@ -412,3 +412,81 @@ func Published(i int) []byte { return nil }
 // DetectorRule reports whether the named acceptance rule is present in the
 // detector's src/sessions.rs (1 present, 0 absent, -1 not recognised).
 func DetectorRule(name string) int { return -1 }
+
+// ShippedList returns a string-array key of the repository's shipped
+// cmd/application/app_config.toml (read from the tree under test on this run).
+func ShippedList(key string) []string {
+	dir, _ := os.Getwd()
+	for i := 0; i < 8; i++ {
+		p := dir + "/cmd/application/app_config.toml"
+		if b, err := os.ReadFile(p); err == nil {
+			return ParseTomlStringList(string(b), key)
+		}
+		dir += "/.."
+	}
+	return nil
+}
+
+// ParseTomlStringList extracts `key = [ "a", "b", ... ]` (comments allowed).
+func ParseTomlStringList(src, key string) []string {
+	idx := -1
+	for off := 0; ; {
+		i := stringsIndex(src[off:], key)
+		if i < 0 {
+			break
+		}
+		i += off
+		if i == 0 || src[i-1] == '\n' {
+			idx = i
+			break
+		}
+		off = i + 1
+	}
+	if idx < 0 {
+		return nil
+	}
+	rest := src[idx+len(key):]
+	lb := stringsIndex(rest, "[")
+	if lb < 0 {
+		return nil
+	}
+	out := []string{}
+	inStr, inComment := false, false
+	cur := ""
+	for _, c := range rest[lb+1:] {
+		switch {
+		case inComment:
+			if c == '\n' {
+				inComment = false
+			}
+		case inStr:
+			if c == '"' {
+				inStr = false
+				out = append(out, cur)
+				cur = ""
+			} else {
+				cur += string(c)
+			}
+		case c == '"':
+			inStr = true
+		case c == '#':
+			inComment = true
+		case c == ']':
+			return out
+		}
+	}
+	return out
+}
+
+func stringsIndex(s, sub string) int {
+	for i := 0; i+len(sub) <= len(s); i++ {
+		if s[i:i+len(sub)] == sub {
+			return i
+		}
+	}
+	return -1
+}
+
+// SubnetLoadFailed reports whether the i-th modelled load of the phantom subnet
+// file failed (engine only; natively false).
+func SubnetLoadFailed(i int) bool { return false }
